@@ -676,7 +676,46 @@ def fam_function(rng):
     return thunk
 
 
+def fam_binalign(rng):
+    """pointwise Binary of two Tensors sharing 4-5 named inputs (all of size 2) stored in DIFFERENT axis orders —
+    every relative order incl. swaps of interior inputs only — with output shapes (), (k,), (k, l); also unary
+    reductions / a further reduce of the aligned result.  (align_tensor / align_tensors bookkeeping.)"""
+    import itertools as _it
+
+    def thunk():
+        nsh = rng.choice([4, 4, 5])
+        names = ["a", "b", "c", "d", "e"][:nsh]
+        k = rng.branch(6)
+        if k in (0, 1):                                   # interior-only permutation: first and last stay put
+            inner = names[1:-1]
+            perms = [p for p in _it.permutations(inner) if list(p) != inner]
+            ynames = [names[0]] + list(rng.choice(perms)) + [names[-1]]
+        elif k == 2:
+            ynames = list(reversed(names))
+        else:
+            ynames = names[:]
+            while ynames == names:
+                rng.shuffle(ynames)
+        ev = rng.choice([(), (2,), (3,), (2, 3), (2, 2)])
+        evy = ev if rng.random() < 0.7 else ()            # broadcasting against a scalar-output operand too
+
+        def tens(order, event):
+            shape = (2,) * len(order) + tuple(event)
+            vals = [float(rng.choice([-3, -2, -1, 0, 1, 2, 3, 4, 5, 6])) for _ in range(int(np.prod(shape)))]
+            return Tensor(np.array(vals).reshape(shape), OrderedDict((n, Bint[2]) for n in order))
+        if k == 5:                                        # y mentions a strict subset, in another order
+            ynames = [n for n in ynames if rng.random() < 0.8] or ynames[:2]
+        x, y = tens(names, ev), tens(ynames, evy)
+        op = rng.choice([ops.add, ops.sub, ops.mul, ops.sub, ops.max])
+        r = op(x, y) if rng.random() < 0.7 else op(y, x)
+        if k == 4:
+            r = r.reduce(ops.add, frozenset(rng.sample(names, 2)))
+        return r
+    return thunk
+
+
 FAMILIES = OrderedDict([
+    ("binalign", fam_binalign),
     ("function", fam_function),
     ("getitem", fam_getitem),
     ("tensordot", fam_tensordot),
